@@ -181,15 +181,20 @@ def _validate_chunk(args):
     shutil.rmtree(meta, ignore_errors=True)
     out = p.stdout
     fails = []
+    stats = {}
     for ln in out.splitlines():
         s = tla_unquote(ln)
         if s and s.startswith("FAIL "):
             fails.append(json.loads(s[5:]))
+        elif s and s.startswith("STATS "):
+            stats = json.loads(s[6:])
     ok = "Model checking completed. No error has been found." in out
     if not ok:
         sys.stderr.write(out[-3000:])
         raise ToolError(f"TLC did not accept trace chunk {tfile} (rc={p.returncode})")
-    return fails, parse_tlc_stats(out)
+    st = parse_tlc_stats(out)
+    st["spec"] = stats
+    return fails, st
 
 
 def validate_trace(events, wdir, module="TraceAidl", chunk_events=1500, nproc=None, timeout=1500):
@@ -214,18 +219,21 @@ def validate_trace(events, wdir, module="TraceAidl", chunk_events=1500, nproc=No
         args.append((tfile, k, wdir, module, timeout))
     t0 = time.time()
     fails, gen, dist = [], 0, 0
+    spec_stats = {}
     with ThreadPoolExecutor(max_workers=nproc) as ex:
         for fl, st in ex.map(_validate_chunk, args):
             fails.extend(fl)
             gen += st.get("generated", 0)
             dist += st.get("distinct", 0)
+            for k2, v2 in st.get("spec", {}).items():
+                spec_stats[k2] = spec_stats.get(k2, 0) + v2
     for a in args:
         try:
             os.remove(a[0])
         except OSError:
             pass
     log(f"[tlc] validated {len(events)} events in {len(chunks)} chunks, {len(fails)} FAIL lines, {time.time()-t0:.1f}s")
-    return fails, {"states": dist, "transitions": gen, "chunks": len(chunks)}
+    return fails, {"states": dist, "transitions": gen, "chunks": len(chunks), "spec": spec_stats}
 
 
 def run_model(module, cfg=None, workers=8, timeout=1800, wdir=None, env_extra=None, xmx="8g"):
